@@ -5,7 +5,8 @@ CONSTANTS
   Focus = {"deep"}
   Emit = "edge"
   MaxBatch = 1
+  AsWritten = FALSE
 VIEW View
-INVARIANTS UniqueKeys AuthIndexAgreement RestoreFidelityWhenClean RestoreShrinks RBACParentsExist BatchAllOrNothing
+INVARIANTS UniqueKeys IndexAgreement RestoreFidelity RestoreShrinks RBACParentsExist BatchAllOrNothing
 ACTION_CONSTRAINT EmitEdge
 CHECK_DEADLOCK FALSE
